@@ -80,7 +80,16 @@ pub fn subs() -> Vec<Box<dyn AnySub>> {
                 ..PlanOpts::default()
             };
             (plan(o), any::<u16>(), any::<bool>(), any::<bool>(), any::<bool>(), prop_oneof![Just(60i16), Just(-60), Just(1), -800i16..800])
-                .prop_map(|(mut plan, k, decoy_first, before_signing, in_body, decoy_delta_s)| {
+                .prop_map(|(plan, k, decoy_first, before_signing, in_body, decoy_delta_s)| make_case(plan, k, decoy_first, before_signing, in_body, decoy_delta_s))
+                .boxed()
+        },
+        check: check_dup,
+    })]
+}
+
+
+/// Put the plan on the carrier the duplicate kind is about and keep the duplicated header out of the signed list.
+pub fn make_case(mut plan: Plan, k: u16, decoy_first: bool, before_signing: bool, in_body: bool, decoy_delta_s: i16) -> DupCase {
                     let kind = KINDS[pick_idx(k, KINDS.len())];
                     use DupKind::*;
                     // put the plan on the carrier the duplicate kind is about
@@ -107,12 +116,7 @@ pub fn subs() -> Vec<Box<dyn AnySub>> {
                         plan.entry.token = plan.spec.token.clone();
                     }
                     DupCase { plan, kind, decoy_first, before_signing, in_body, decoy_delta_s }
-                })
-                .boxed()
-        },
-        check: check_dup,
-    })]
-}
+                }
 
 fn insert_header(req: &mut WireRequest, name: &str, value: &str, first: bool, beside: &str) {
     let pos = req.headers.iter().position(|(n, _)| n.eq_ignore_ascii_case(beside));
